@@ -14,6 +14,9 @@ def dispatch(prop):
     if prop in ("C14",):
         import lifecycle_check
         return lifecycle_check.main
+    if prop in ("C19",):
+        import contexts_check
+        return contexts_check.main
     raise SystemExit(f"unknown property {prop}")
 
 
